@@ -2,6 +2,11 @@
 
 package sharding
 
+import (
+	corev1 "k8s.io/api/core/v1"
+	k8slisterv1 "k8s.io/client-go/listers/core/v1"
+)
+
 // VerifSchedulerConfigs converts parsed scheduler specs into the internal
 // SchedulerConfig list exactly the way applyShardingConfig does (deprecated
 // scalars synthesised into the policy chain, then the spec conversion), so an
@@ -13,4 +18,11 @@ func VerifSchedulerConfigs(cfg *ShardingConfig) []SchedulerConfig {
 		out = append(out, schedulerConfigFromSpec(spec))
 	}
 	return out
+}
+
+// VerifListNodes is the controller's listNodesFromCache on the given lister:
+// the node list syncShards hands to CalculateShardAssignments.
+func VerifListNodes(lister k8slisterv1.NodeLister) ([]*corev1.Node, error) {
+	sc := &ShardingController{nodeLister: lister}
+	return sc.listNodesFromCache()
 }
